@@ -1,0 +1,54 @@
+//go:build verif
+
+package route
+
+import "sync/atomic"
+
+// Verification hooks for the weighted ring and the pickers (build tag verif). No behaviour is changed.
+
+// VerifC04Total returns the round-robin cursor of a route.
+func VerifC04Total(r *Route) uint64 { return atomic.LoadUint64(&r.total) }
+
+// VerifC04SetTotal sets the round-robin cursor of a route (to start a cycle anywhere, e.g. near the
+// uint64 wrap-around).
+func VerifC04SetTotal(r *Route, v uint64) { atomic.StoreUint64(&r.total, v) }
+
+// VerifC04SetRandIntn replaces the package variable randIntn used by rndPicker and returns a function that
+// restores the previous one.
+func VerifC04SetRandIntn(f func(n int) int) (restore func()) {
+	old := randIntn
+	randIntn = f
+	return func() { randIntn = old }
+}
+
+// VerifC04Ring returns, per slot of r.wTargets, the index of the target in r.Targets (-1 if the slot holds a
+// target that is not in Targets, -2 for a nil slot): the same encoding as VerifRoute.Ring.
+func VerifC04Ring(r *Route) []int {
+	idx := map[*Target]int{}
+	for i, tg := range r.Targets {
+		idx[tg] = i
+	}
+	out := make([]int, 0, len(r.wTargets))
+	for _, tg := range r.wTargets {
+		switch {
+		case tg == nil:
+			out = append(out, -2)
+		default:
+			if i, ok := idx[tg]; ok {
+				out = append(out, i)
+			} else {
+				out = append(out, -1)
+			}
+		}
+	}
+	return out
+}
+
+// VerifC04Weights returns FixedWeight and Weight of every target of a route as exact rationals.
+func VerifC04Weights(r *Route) (fixed, weight []string) {
+	for _, tg := range r.Targets {
+		fixed = append(fixed, VerifRat(tg.FixedWeight))
+		weight = append(weight, VerifRat(tg.Weight))
+	}
+	return
+}
